@@ -1060,16 +1060,21 @@ class SSHProcess(SSHStreamSession, Generic[AnyStr]):
     def connection_lost(self, exc: Optional[Exception]) -> None:
         """Handle a close of the SSH channel"""
 
-        super().connection_lost(exc) # type: ignore
+        readers = list(self._readers.values())
+        writers = list(self._writers.values())
 
-        for reader in list(self._readers.values()):
-            reader.close()
-
-        for writer in list(self._writers.values()):
-            writer.close()
-
+        # Forget the redirects first so that drain() waiters woken up
+        # below see the channel as gone rather than as still redirected
         self._readers = {}
         self._writers = {}
+
+        super().connection_lost(exc) # type: ignore
+
+        for reader in readers:
+            reader.close()
+
+        for writer in writers:
+            writer.close()
 
     def data_received(self, data: AnyStr, datatype: DataType) -> None:
         """Handle incoming data from the SSH channel"""
